@@ -217,6 +217,20 @@ def handle_parseline(text, version):
     }
 
 
+def handle_regex(text, label):
+    from tealer.utils.regex.regex import Regex, match_regex
+
+    pat, prog = text.split("\n@@----\n", 1)
+    teal, _, _ = quiet(parse_teal, prog)
+    inss = []
+    for line in pat.splitlines():
+        ins, _, _ = quiet(parse_line, line)
+        if ins:
+            inss.append(ins)
+    (matches, covered), _, _ = quiet(match_regex, teal, Regex(label, inss))
+    return {"matches": [[i.line for i in m] for m in matches], "covered": sorted(set(i.line for i in covered))}
+
+
 def main():
     inp = sys.stdin
     outp = sys.stdout
@@ -238,6 +252,8 @@ def main():
                 r = handle_analyze(text)
             elif kind == "parseline":
                 r = handle_parseline(text, int(rest[0]) if rest else 8)
+            elif kind == "regex":
+                r = handle_regex(text, rest[0] if rest else "*")
             else:
                 r = {"err": "unknown request"}
         except SystemExit:
